@@ -584,6 +584,9 @@ func (a *effAnalysis) instr(ins ssa.Instruction) {
 		if a.deadCall[x] {
 			break // computes only what this call site discards
 		}
+		if a.onlyUnreadMapEntryVal(x) && a.pureCall(x) {
+			break // only fills an entry of a local map that no lookup of this specialisation can reach
+		}
 		a.call(x.Common(), x.Pos(), x)
 	case *ssa.Defer:
 		a.call(x.Common(), x.Pos(), nil)
@@ -1705,13 +1708,17 @@ func (a *effAnalysis) structCopyReads(x *ssa.UnOp) bool {
 // function builds itself (a literal), k a constant, and every lookup in that map has — under the constant
 // bindings of this specialisation — a constant key different from k; the map does not escape. Such a load is
 // made, but nothing the function computes can depend on it.
-func (a *effAnalysis) onlyUnreadMapEntry(x *ssa.UnOp) bool {
+func (a *effAnalysis) onlyUnreadMapEntry(x *ssa.UnOp) bool { return a.onlyUnreadMapEntryVal(x) }
+
+// onlyUnreadMapEntryVal: the value's only use is to fill an entry of a local map literal that no lookup of
+// this specialisation can reach (a constant key other than every looked-up constant key).
+func (a *effAnalysis) onlyUnreadMapEntryVal(x ssa.Value) bool {
 	refs := x.Referrers()
 	if refs == nil || len(*refs) != 1 {
 		return false
 	}
 	up, ok := (*refs)[0].(*ssa.MapUpdate)
-	if !ok || up.Value != ssa.Value(x) {
+	if !ok || up.Value != x {
 		return false
 	}
 	mm, ok := up.Map.(*ssa.MakeMap)
